@@ -713,6 +713,105 @@ impl<'a> Run<'a> {
                 }
             }
         }
+        // ---- zero-display orders present or possible: per-visit observation is impossible (a
+        // visit that consumes nothing leaves no transaction), so the whole match is predicted by
+        // the specification model — visit in arrival (stamp) order, apply the A.3 rule, an order
+        // that can neither trade nor replenish is passed over and keeps its place, a replenished
+        // order goes to the back — and compared with what was observed
+        if self.h.knobs.zero && self.stamps_valid {
+            let mut cur = before.clone();
+            let mut remaining = qty;
+            let mut aside: BTreeSet<IdS> = BTreeSet::new();
+            let mut pred: Vec<(IdS, u64)> = vec![];
+            let mut guard = 0u32;
+            while remaining > 0 && guard < 100_000 {
+                guard += 1;
+                let next = cur
+                    .keys()
+                    .filter(|id| !aside.contains(*id))
+                    .filter_map(|id| self.stamps.get(id).map(|s| (*s, *id)))
+                    .min();
+                let Some((_, id)) = next else { break };
+                let o = cur[&id];
+                let ro = rule(&o, remaining);
+                if ro.consumed == 0 && ro.moved == 0 && ro.next.is_some() {
+                    aside.insert(id);
+                    bump(&mut self.out.probes, "spec_model_passed_over_zero_display");
+                    continue;
+                }
+                if ro.consumed > 0 {
+                    pred.push((id, ro.consumed));
+                }
+                remaining = ro.remaining;
+                match ro.next {
+                    None => {
+                        cur.remove(&id);
+                        self.stamps.remove(&id);
+                    }
+                    Some(nx) => {
+                        cur.insert(id, nx);
+                        if ro.moved > 0 {
+                            self.fresh_stamp(id);
+                        }
+                    }
+                }
+            }
+            let obs: Vec<(IdS, u64)> = txs
+                .iter()
+                .map(|t| (IdS::of(t.maker_order_id), t.quantity))
+                .collect();
+            let mut agree = true;
+            for k in 0..pred.len().max(obs.len()) {
+                match (pred.get(k), obs.get(k)) {
+                    (Some(p), Some(o)) if p == o => {}
+                    (Some(p), Some(o)) if p.0 != o.0 => {
+                        let pa = before.get(&p.0).map(|x| x.brief()).unwrap_or_default();
+                        let ob = before.get(&o.0).map(|x| x.brief()).unwrap_or_default();
+                        self.viol(
+                            "C04",
+                            "priority-inversion",
+                            at,
+                            format!(
+                                "tx {k} of match({qty}) trades against {ob} while the earlier-arrived {pa} can trade (displays or replenishes quantity)"
+                            ),
+                        );
+                        agree = false;
+                        break;
+                    }
+                    (p, o) => {
+                        self.viol(
+                            "C05",
+                            "consumed",
+                            at,
+                            format!(
+                                "tx {k} of match({qty}): observed {:?}, the rule applied in arrival order gives {:?}",
+                                o.map(|x| (x.0.short(), x.1)),
+                                p.map(|x| (x.0.short(), x.1))
+                            ),
+                        );
+                        agree = false;
+                        break;
+                    }
+                }
+            }
+            if agree && after != cur {
+                self.viol(
+                    "C05",
+                    "state-after-match",
+                    at,
+                    format!(
+                        "after match({qty}) the book is [{}] but the rule applied in arrival order leaves [{}]",
+                        after.values().map(|o| o.brief()).collect::<Vec<_>>().join(" | "),
+                        cur.values().map(|o| o.brief()).collect::<Vec<_>>().join(" | ")
+                    ),
+                );
+                agree = false;
+            }
+            if !agree {
+                // the model can no longer say where each order stands
+                self.stamps_valid = false;
+            }
+        }
         if self.listing.is_empty() && !before_list.is_empty() {
             bump(&mut self.out.probes, "match_swept_level");
         }
@@ -1345,7 +1444,7 @@ impl<'a> Exec<'a> {
             dg: Digest::default(),
             stamps: BTreeMap::new(),
             next_stamp: 0,
-            stamps_valid: !h.knobs.zero,
+            stamps_valid: true,
             cancelled_once: BTreeSet::new(),
             ledger: BTreeMap::new(),
             txids: BTreeSet::new(),
